@@ -88,7 +88,8 @@ def gen_case(rng, n_ops, fresh_counter, collide=False):
                 ref = "L" + hex(rng.choice([0, 1, 2, rng.getrandbits(64), rng.getrandbits(33), NOCHK << 32 | rng.randrange(6),
                                             (1 << 63) | rng.randrange(4), rng.randrange(8) << 32 | rng.randrange(8)]))
             o = rng.random()
-            letter = "G" if o < 0.3 else "P" if o < 0.6 else "D" if o < 0.8 else "R"
+            letter = "G" if o < 0.25 else "A" if o < 0.31 else "P" if o < 0.6 else "D" if o < 0.8 else \
+                "R" if o < 0.94 else "B" if o < 0.97 else "V"
             ops.append("%s %s" % (letter, ref))
     return ops
 
@@ -174,7 +175,13 @@ def monitor(lines):
             # iterator cursor runs over reserved slots as well)
             if all(ix in slot for ix in range(nslots)):
                 nslots += 1
-        elif letter == "G":
+        elif letter == "B":
+            if int(rp[2], 0) != (arg & 0xFFFFFFFF) or dtors:
+                return "base_convert(0x%x) returned %s" % (arg, rp[2])
+        elif letter == "V":
+            if int(rp[2], 0) != ((0xFFFFFFFF << 32) | (arg & 0xFFFFFFFF)) or dtors:
+                return "nocheck_convert(0x%x) returned %s" % (arg, rp[2])
+        elif letter in ("G", "A"):
             o = resolve(arg)
             if o and not o["destroyed"]:
                 if res != 0 or int(rp[2], 0) != o["id"]:
